@@ -36,6 +36,9 @@ func genPkgContents(r *rng.R, t *SrcTree) []wire.Content {
 		}
 		if r.Chance(1, 3) {
 			f.MTime = 1500000000 + int64(r.Intn(100000))
+		} else if r.Chance(1, 8) {
+			// the first seconds of the epoch: a declared time like any other, not "unset"
+			f.MTime = rng.Pick(r, []int64{0, 1, 86399})
 		}
 		return f
 	}
@@ -69,7 +72,7 @@ func genPkgContents(r *rng.R, t *SrcTree) []wire.Content {
 		case 8:
 			cs = append(cs, wire.Content{Src: rng.Pick(r, []string{filepath.Join(t.Root, "tree"), filepath.Join(t.Root, "tree/sub")}), Dst: fmt.Sprintf("/usr/share/app/t%d", i), Type: "tree", Info: fi(), Packager: tag()})
 		case 9:
-			cs = append(cs, wire.Content{Dst: fmt.Sprintf("/var/log/app%d.log", i), Type: "ghost", Info: fi()})
+			cs = append(cs, wire.Content{Dst: fmt.Sprintf("/var/log/app%d.log", i), Type: "ghost", Info: fi(), Packager: tag()})
 		case 12:
 			// names that begin with a dot directly under the root and deeper
 			switch r.Intn(4) {
@@ -83,7 +86,7 @@ func genPkgContents(r *rng.R, t *SrcTree) []wire.Content {
 				cs = append(cs, wire.Content{Src: "/.cache/app", Dst: fmt.Sprintf("/..latest%d", i), Type: "symlink", Packager: tag()})
 			}
 		case 10:
-			cs = append(cs, wire.Content{Src: rng.Pick(r, t.Files), Dst: fmt.Sprintf("/usr/share/doc/app/x%d", i), Type: rng.Pick(r, []string{"doc", "licence", "license", "readme"}), Info: fi()})
+			cs = append(cs, wire.Content{Src: rng.Pick(r, t.Files), Dst: fmt.Sprintf("/usr/share/doc/app/x%d", i), Type: rng.Pick(r, []string{"doc", "licence", "license", "readme"}), Info: fi(), Packager: tag()})
 		default:
 			cs = append(cs, wire.Content{Src: rng.Pick(r, []string{filepath.Join(t.Root, "with space/file name.txt"), filepath.Join(t.Root, "share/empty"), filepath.Join(t.Root, "links/ln"), filepath.Join(t.Root, "links/unclean"), filepath.Join(t.Root, "tree/dotlnk")}),
 				Dst: fmt.Sprintf("/opt/sp ace/n%d", i), Info: fi(), Packager: tag()})
